@@ -229,6 +229,9 @@ COMPONENT_SIMS = [
     # six validators, a noisy Byzantine one, one crashed (isolated) node, standstill recovery
     dict(name="cmp_six", stakes=[1, 1, 1, 1, 1, 1], byz=[5], byz_mode="spam", crashed=[2], crash_at=2000, gst=3000,
          chaos=1500, drop=100, dup=50, run_ms=9000, standstill=1700),
+    # a correct node lags behind (certificates only) and catches up by repair; late equivocated blocks reach it
+    dict(name="cmp_lag4", stakes=[2, 2, 2, 1], byz=[3], byz_mode="equivocate", gst=500, chaos=300, drop=10,
+         run_ms=14000, lag=(1, 1500, 9000), standstill=4000),
     dict(name="cmp_hostile4", stakes=[2, 2, 2, 1], byz=[3], byz_mode="hostile", gst=1500, chaos=800, drop=30,
          run_ms=9000),
     dict(name="cmp_seven", stakes=[3, 2, 2, 1, 1, 1, 1], byz=[4], byz_mode="equivocate", gst=4000, chaos=2500, drop=150,
@@ -236,14 +239,15 @@ COMPONENT_SIMS = [
 ]
 
 
-def component_sims(ctx, relevant, count=None):
+def component_sims(ctx, relevant, count=None, names=None):
     """Real nodes under adversarial schedules; every pool call / Votor step of every correct node validated against
     Pool.tla / Votor.tla.  Divergences are attributed by `relevant(aspects)`."""
     from . import sim as S
     if count is None:
         count = 1 if ctx.tier == "quick" else len(COMPONENT_SIMS)
     steps = 0
-    for k, sc0 in enumerate(COMPONENT_SIMS[:count]):
+    chosen = [s for s in COMPONENT_SIMS if s["name"] in names] if (names and ctx.tier == "quick") else COMPONENT_SIMS[:count]
+    for k, sc0 in enumerate(chosen):
         sc = dict(sc0)
         name = sc.pop("name")
         sc["seed"] = ctx.seed + 500 + k
